@@ -9,6 +9,7 @@ import (
 	"github.com/invopop/gobl/cbc"
 	"github.com/invopop/gobl/currency"
 	"github.com/invopop/gobl/internal"
+	"github.com/invopop/gobl/num"
 	"github.com/invopop/gobl/org"
 	"github.com/invopop/gobl/schema"
 	"github.com/invopop/gobl/tax"
@@ -212,21 +213,27 @@ func partyHasTaxIDCode(party *org.Party) bool {
 // an error.
 func (inv *Invoice) Invert() error {
 	payable := inv.Totals.Payable.Invert()
+	rounding := invertAmountPtr(inv.Totals.Rounding)
 
 	for _, row := range inv.Lines {
 		row.Quantity = row.Quantity.Invert()
 		for _, d := range row.Discounts {
 			d.Amount = d.Amount.Invert()
+			d.Base = invertAmountPtr(d.Base)
 		}
 		for _, c := range row.Charges {
 			c.Amount = c.Amount.Invert()
+			c.Base = invertAmountPtr(c.Base)
+			c.Quantity = invertAmountPtr(c.Quantity)
 		}
 	}
 	for _, row := range inv.Charges {
 		row.Amount = row.Amount.Invert()
+		row.Base = invertAmountPtr(row.Base)
 	}
 	for _, row := range inv.Discounts {
 		row.Amount = row.Amount.Invert()
+		row.Base = invertAmountPtr(row.Base)
 	}
 	if inv.Payment != nil {
 		for _, row := range inv.Payment.Advances {
@@ -234,6 +241,10 @@ func (inv *Invoice) Invert() error {
 		}
 	}
 	inv.Totals = nil
+	if rounding != nil {
+		// the rounding amount is an input that forms part of the payable total
+		inv.Totals = &Totals{Rounding: rounding}
+	}
 
 	if err := inv.Calculate(); err != nil {
 		return err
@@ -246,6 +257,14 @@ func (inv *Invoice) Invert() error {
 	}
 
 	return nil
+}
+
+func invertAmountPtr(a *num.Amount) *num.Amount {
+	if a == nil {
+		return nil
+	}
+	v := a.Invert()
+	return &v
 }
 
 // Empty is a convenience method that will empty all the lines and
